@@ -972,14 +972,34 @@ def pattern_reg8(context, tree):
     return tree.value
 
 
-@arm_isa.pattern("reg", "I8TOI32(reg)", size=0)
-@arm_isa.pattern("reg", "U8TOI32(reg)", size=0)
-@arm_isa.pattern("reg", "I8TOU32(reg)", size=0)
-@arm_isa.pattern("reg", "U8TOU32(reg)", size=0)
-def pattern_i8toi32(self, tree, c0):
-    # TODO: do something?
-    # Sign extend for example?
-    return c0
+def sign_extend(context, value, bits):
+    """Sign extend the lower bits of the value into a new register"""
+    d = context.new_reg(ArmRegister)
+    context.emit(Mov2(d, value, ShiftLsl(32 - bits)))
+    d2 = context.new_reg(ArmRegister)
+    context.emit(Mov2(d2, d, ShiftAsr(32 - bits)))
+    return d2
+
+
+def zero_extend(context, value, bits):
+    """Zero extend the lower bits of the value into a new register"""
+    d = context.new_reg(ArmRegister)
+    context.emit(Mov2(d, value, ShiftLsl(32 - bits)))
+    d2 = context.new_reg(ArmRegister)
+    context.emit(Mov2(d2, d, ShiftLsr(32 - bits)))
+    return d2
+
+
+@arm_isa.pattern("reg", "I8TOI32(reg)", size=8)
+@arm_isa.pattern("reg", "I8TOU32(reg)", size=8)
+def pattern_i8toi32(context, tree, c0):
+    return sign_extend(context, c0, 8)
+
+
+@arm_isa.pattern("reg", "U8TOI32(reg)", size=8)
+@arm_isa.pattern("reg", "U8TOU32(reg)", size=8)
+def pattern_u8toi32(context, tree, c0):
+    return zero_extend(context, c0, 8)
 
 
 @arm_isa.pattern("reg", "U32TOI8(reg)", size=0)
@@ -1002,19 +1022,16 @@ def pattern_i32toi16(context, tree, c0):
     return c0
 
 
-@arm_isa.pattern("reg", "I16TOI32(reg)", size=4)
+@arm_isa.pattern("reg", "I16TOI32(reg)", size=8)
+@arm_isa.pattern("reg", "I16TOU32(reg)", size=8)
 def pattern_i16toi32(context, tree, c0):
-    # d2 = context.new_reg(ArmRegister)
-    # TODO:
-    # context.emit(Sxth(d2, c0))
-    return c0
+    return sign_extend(context, c0, 16)
 
 
-@arm_isa.pattern("reg", "I16TOU32(reg)", size=4)
-@arm_isa.pattern("reg", "U16TOI32(reg)", size=4)
-@arm_isa.pattern("reg", "U16TOU32(reg)", size=4)
-def pattern_i16tou32(context, tree, c0):
-    return c0
+@arm_isa.pattern("reg", "U16TOI32(reg)", size=8)
+@arm_isa.pattern("reg", "U16TOU32(reg)", size=8)
+def pattern_u16toi32(context, tree, c0):
+    return zero_extend(context, c0, 16)
 
 
 @arm_isa.pattern("reg", "CONSTI32", size=8)
@@ -1071,6 +1088,11 @@ def pattern_cjmp_signed(context, tree, c0, c1):
     op, yes_label, no_label = tree.value
     opnames = {"<": Blt, ">": Bgt, "==": Beq, "!=": Bne, "<=": Ble, ">=": Bge}
     Bop = opnames[op]
+    if tree.name in ("CJMPI8", "CJMPI16"):
+        # Compare the values, not what is above them in the registers:
+        bits = 8 if tree.name == "CJMPI8" else 16
+        c0 = sign_extend(context, c0, bits)
+        c1 = sign_extend(context, c1, bits)
     context.emit(Cmp2(c0, c1, NoShift()))
     jmp_ins = B(no_label.name, jumps=[no_label])
     context.emit(Bop(yes_label.name, jumps=[yes_label, jmp_ins]))
@@ -1091,6 +1113,11 @@ def pattern_cjmp_unsigned(context, tree, c0, c1):
         ">=": (Bhs, False),
     }
     Bop, do_swap = opnames[op]
+    if tree.name in ("CJMPU8", "CJMPU16"):
+        # Compare the values, not what is above them in the registers:
+        bits = 8 if tree.name == "CJMPU8" else 16
+        c0 = zero_extend(context, c0, bits)
+        c1 = zero_extend(context, c1, bits)
     if do_swap:
         context.emit(Cmp2(c1, c0, NoShift()))
     else:
